@@ -1,19 +1,9 @@
--- Root of the GSV library: core-only part (Scalar, Ctl, generated kernels, models) and the
--- Mathlib-based part (RealInst, Lemmas, Props).
+-- Root of the GSV library: the core-Lean part (scalar interface, control combinators, generated
+-- kernels, hand-written models).  The Mathlib-based property modules GSV.Props.* are built one by one
+-- from the list in vlib/registry/*.json (see setup.sh), never imported wholesale.
 import GSV.Scalar
 import GSV.Ctl
 import GSV.Gen.Summator
 import GSV.Gen.Krigesum
 import GSV.Gen.Estimator
-import GSV.Lemmas.Ctl
-import GSV.Props.KernelSummate
-import GSV.Props.KernelKrige
-import GSV.Props.KernelVario
-import GSV.RealInst
-import GSV.Props.C08
-import GSV.Props.C05
-import GSV.Props.C06
-import GSV.Props.C07
-import GSV.Props.C11
-import GSV.Props.C09
-import GSV.Props.C01
+import GSV.Model.All
